@@ -206,6 +206,7 @@ fn check_control(id: u64, b: &[u8], closed: bool, v: &mut Vec<WireFinding>, st: 
         });
     }
     let (frames, _tail) = rf::segment(b);
+    let mut last_goaway: Option<u64> = None;
     for (i, f) in frames.iter().enumerate() {
         st.frames += 1;
         let parsed = rf::parse(f);
@@ -224,7 +225,28 @@ fn check_control(id: u64, b: &[u8], closed: bool, v: &mut Vec<WireFinding>, st: 
                 stream: id,
                 detail: format!("frame #{}", i),
             }),
-            (Ok(Parsed::Goaway(_)), _) => st.goaway_frames += 1,
+            (Ok(Parsed::Goaway(g)), _) => {
+                st.goaway_frames += 1;
+                // RFC 9114 5.2: an endpoint MUST NOT increase the identifier; a server's
+                // identifier is a client-initiated bidirectional stream id
+                if let Some(prev) = last_goaway {
+                    if *g > prev {
+                        v.push(WireFinding {
+                            rule: "goaway-id-increased",
+                            stream: id,
+                            detail: format!("GOAWAY({}) sent after GOAWAY({})", g, prev),
+                        });
+                    }
+                }
+                last_goaway = Some(*g);
+                if id & 1 == 1 && *g % 4 != 0 {
+                    v.push(WireFinding {
+                        rule: "goaway-id-not-a-request-stream-id",
+                        stream: id,
+                        detail: format!("server sent GOAWAY({})", g),
+                    });
+                }
+            }
             (Ok(Parsed::MaxPushId(_)), _) | (Ok(Parsed::CancelPush(_)), _) => {}
             (Ok(Parsed::Unknown(t)), _) => {
                 if rf::is_grease(*t) {
